@@ -24,6 +24,16 @@ def hierarchy_relations(chk, db, rule_id):
     def insts(name):
         return {f.d.get("targs", "").rsplit("::", 1)[-1]: f for f in db.fns(RL + name, [HPP]) if f.d.get("targs")}
     GP, GSP, GK, GMK = insts("getParent"), insts("getStepParent"), insts("getKid"), insts("getMaxNumKids")
+    # further downward relations that the sub-graph walk itself uses (one-argument RuleLocal functions called by getSubGraph, e.g. getStepKid)
+    extra = {}
+    for sg in db.fns("TasGrid::GridLocalPolynomial::getSubGraph", required=False):
+        r_ = sg.d.get("targs", "").rsplit("::", 1)[-1]
+        for c in sg.calls():
+            cal = callee(c) or ""
+            if cal.startswith(RL) and short(cal).split("<")[0] not in ("getKid", "getMaxNumKids") and len(call_args(c)) == 1:
+                t = db.resolve(c)
+                if t is not None:
+                    extra.setdefault(r_, {})[short(cal).split("<")[0]] = t
     n = 0
     for r in sorted(set(GP) & set(GK) & set(GMK)):
         if r == "pwc":
@@ -33,6 +43,8 @@ def hierarchy_relations(chk, db, rule_id):
             kids = {}
             for p in range(NPTS):
                 kids[p] = {int(pe.call(GK[r], [sympy.Integer(p), sympy.Integer(i)])) for i in range(mk)}
+                for nm_, fx in extra.get(r, {}).items():
+                    kids[p].add(int(pe.call(fx, [sympy.Integer(p)])))
             missing = []
             for c in range(NPTS):
                 ups = [("getParent", int(pe.call(GP[r], [sympy.Integer(c)])))]
@@ -40,7 +52,8 @@ def hierarchy_relations(chk, db, rule_id):
                     ups.append(("getStepParent", int(pe.call(GSP[r], [sympy.Integer(c)]))))
                 for nm, q in ups:
                     if q >= 0 and q < NPTS and c not in kids.get(q, set()):
-                        missing.append("point %d has %s %d, but getKid(%d, .) = %s never yields %d" % (c, nm, q, q, sorted(kids[q]), c))
+                        missing.append("point %d has %s %d, but the relations walked by getSubGraph (getKid%s) give %s for %d, never %d" % (
+                            c, nm, q, "".join(", " + x for x in sorted(extra.get(r, {}))), sorted(kids[q]), q, c))
         except NotClosedForm as e:
             chk.note(rule_id, HPP, "hierarchy relations of %s not analysable: %s" % (r, e))
             continue
@@ -520,6 +533,32 @@ def run(chk):
     # ------------------------------------------------------------------ D4
     nr = hierarchy_relations(chk, db, "C09-D4.relations")
     chk.floor("C09-D4.relations", nr, 4, "local polynomial rules with closed-form hierarchy relations")
+
+    # ------------------------------------------------------------------ D10 registrations that hold delivered samples survive a request for candidates
+    chk.rule("C09-D10.keep", "a request for candidates re-registers the candidate tensors; the routine that forgets the old registrations erases a record only under a condition that looks at "
+                             "its delivered-sample flags (`loaded`): a record that already holds samples is the only way those samples are found when the tensor becomes admissible, "
+                             "and finishConstruction() drops what was never found")
+    nkeep = 0
+    for f in db.fns("TasGrid::DynamicConstructorDataGlobal::clearTesnors", required=False):
+        loc = {v["did"]: v for v in f.locals().values() if "did" in v}
+        for c in f.calls():
+            if short(callee(c) or "") not in ("erase_after", "erase", "remove_if", "clear") or not is_reachable(f, c):
+                continue
+            nkeep += 1
+            chk.saw(f)
+            looks = False
+            for cnd, truth in cond_edges_dominating(f, c):
+                nodes = [cnd] + list(walk(cnd))
+                # a local flag stands for its initialiser
+                for q in list(nodes):
+                    if q.get("k") == "DeclRefExpr" and q.get("did") in loc and loc[q["did"]].get("c"):
+                        nodes += [loc[q["did"]]["c"][0]] + list(walk(loc[q["did"]]["c"][0]))
+                if any(q.get("k") == "MemberExpr" and short(q.get("field") or "") == "loaded" for q in nodes):
+                    looks = True
+            chk.ob("C09-D10.keep", f.key, "registrations are erased only after a look at their delivered samples", looks, f.loc(c),
+                   "" if looks else "every record with a non-negative weight is erased: samples delivered for a tensor that is not admissible yet lose their record and are not found again "
+                   "unless another list of candidates is requested")
+    chk.floor("C09-D10.keep", nkeep, 1, "erase sites in clearTesnors")
 
     return ("Static rule discharge: must-pass-through of an insert-or-park sink in every loadConstructedPoint overload, who-may-remove for the parked samples, guard dominance for candidate "
             "appends, eject-after-register agreement of the two GridGlobal overloads, ordering of the single-point expansion, the strip insertion kernel, and the inverse relation between the upward and downward hierarchy maps (partial evaluation of "
